@@ -450,6 +450,10 @@ func c15pGenFiles(r *hx.Rng) c15pShape {
 	vs := []string{"a", "b", "c"}
 	if sh.numv {
 		vs = []string{"10", "9", "1k", "x"}
+		if r.Chance(0.5) {
+			// two spellings of one number: they tie under @num and only the textual tie-break separates them
+			vs = []string{"1k", "10", "1000", "9", "x"}
+		}
 	}
 	vs = vs[:r.Range(2, len(vs))]
 	names := []string{"Enc", "Dec", "Hash"}[:r.Range(1, 3)]
@@ -560,6 +564,9 @@ func c15pFlags(r *hx.Rng, sh c15pShape) []bsFlags {
 		out = append(out, mk(table, row, "/v", ignore), mk(table, row, "/v@alpha", ignore))
 		if sh.numv {
 			out = append(out, mk(table, row, "/v@num", ignore), mk(table, row, "/v@(x 1k 9 10)", ignore))
+			// the numeric key first among several row fields: keys that tie on it must still be ordered (by the later fields,
+			// then textually), the same way in every run and for every order of the lines
+			out = append(out, mk(table, "/v@num,.name", "", ""), mk(table, "/v@num,.name@alpha", ".file", ""))
 		} else {
 			out = append(out, mk(table, row, "/v@(c b a)", ignore), mk(table, row, "/v@(b a)", ignore))
 		}
